@@ -8,6 +8,7 @@ repository pair (correspondence), together with the property clauses on the obse
 -/
 import WrglModel.Model.Sync
 import WrglModel.Props.C11
+import WrglModel.Gen.Facts
 namespace Wrgl
 
 /-- Fetch, not forced: a ref is updated only if it did not exist, or is not a tag and the new
@@ -98,5 +99,33 @@ theorem C10_frame (refs : List (Option Nat × Nat × Bool)) (force : Bool) (isAn
 /-- non-vacuity: a non-fast-forward fetch of a branch is rejected, a fast-forward one is applied -/
 example : fetchDecision (some 1) 2 false false (fun _ _ => false) = .reject ∧
           fetchDecision (some 1) 2 false false (fun _ _ => true) = .update := by decide
+
+/-! ### the decision tables regenerated from the source are the model -/
+
+theorem C10_fact_fetchForceNotAssigned : Facts.fetchForceParamAssigned = false := by decide
+theorem C10_fact_pushForceNotAssigned : Facts.pushForceParamAssigned = false := by decide
+
+/-- For every situation of a ref (equal or not, tag or branch, new or existing, fast-forward or not,
+    forced or not) the guards extracted from `saveFetchedRefs` let a `ref.SaveFetchRef` through
+    exactly when the model's `fetchDecision` says `update`. -/
+theorem C10_fetch_table_is_model (e : GEnv) (h : e.isNil = true → e.eq = false) :
+    tableFires (fetchAtom e) Facts.fetchSavePaths =
+      some (decide (fetchDecision e.old e.new e.tag e.force (fun _ _ => e.ff) = .update)) := by
+  obtain ⟨eq, tag, isNil, ff, force⟩ := e
+  cases eq <;> cases tag <;> cases isNil <;> cases ff <;> cases force <;> simp at h <;> decide
+
+/-- The same for `identifyUpdates` (push): an update is queued exactly when `pushDecision` says `update`. -/
+theorem C10_push_table_is_model (e : GEnv) (h : e.isNil = true → e.eq = false) :
+    tableFires (pushAtom e) Facts.pushUpdatePaths =
+      some (decide (pushDecision e.old e.new e.tag e.force (fun _ _ => e.ff) = .update)) := by
+  obtain ⟨eq, tag, isNil, ff, force⟩ := e
+  cases eq <;> cases tag <;> cases isNil <;> cases ff <;> cases force <;> simp at h <;> decide
+
+/-- `runMerge` has exactly one fast-forward write; it is guarded by "exactly one commit is not the
+    merge base" and "not --no-ff", and it moves the branch to that one commit. -/
+theorem C10_merge_ff_site :
+    Facts.mergeFFPaths = [[(false, "err != nil"), (false, "!strings.HasPrefix(name, 'heads/')"), (false, "err != nil"),
+      (false, "len(nonAncestralCommits) == 0"), (true, "len(nonAncestralCommits) == 1"), (false, "ff == conf.FF_Never"),
+      (true, "target=nonAncestralCommits[0]")]] := by decide
 
 end Wrgl
